@@ -12,7 +12,7 @@
  *       (usage = Constraint::get_load() = what Host::get_load() / Link::get_load() return; capacity = Constraint::bound_)
  *
  * Operations
- *   ["update_prio", h, prio]        Exec::update_priority (change of the sharing penalty of a running execution)
+ *   ["update_prio", h, prio]        Exec::update_priority (change of the sharing penalty of a running execution; "skipped" when it is over)
  *   ["act_set_bound", h, bound]     kernel Action::set_bound on the model action of a running activity, inside a simcall
  *                                   (what VirtualMachineImpl / plugins do; the S4U interface only sets bounds before the start)
  *   ["route_info", src, dst]        {"links":[names], "lat": hex} as Host::route_to reports it
@@ -27,7 +27,7 @@
 
 namespace vf {
 
-static const char* const model_ext_version = "model-ext-v4"; // `strings s4u_model | grep model-ext` tells which header was compiled
+static const char* const model_ext_version = "model-ext-v5"; // `strings s4u_model | grep model-ext` tells which header was compiled
 
 static json model_arr(std::initializer_list<std::string> l)
 {
@@ -49,8 +49,13 @@ static bool model_ops(Ctx& c, int idx, const json& op, json& result)
   const std::string o = op[0].get<std::string>();
   if (o == "update_prio") {
     Handle& h = handle(op[1].get<int>());
-    boost::static_pointer_cast<sg4::Exec>(h.act)->update_priority(op[2].get<double>());
-    result = nullptr;
+    // Exec::update_priority dereferences the model action: only legal on a running execution ("skipped" otherwise)
+    auto act  = h.act;
+    bool live = simgrid::kernel::actor::simcall_answered(
+        [act]() { return act->get_impl() != nullptr && act->get_impl()->model_action_ != nullptr; });
+    if (live)
+      boost::static_pointer_cast<sg4::Exec>(h.act)->update_priority(op[2].get<double>());
+    result = live ? json(nullptr) : json("skipped");
     return true;
   }
   if (o == "act_set_bound") {
